@@ -77,7 +77,7 @@ def build_harness():
             import shutil
             shutil.copy("/repo/Cargo.lock", lockfile)
         p = subprocess.run(
-            ["cargo", "build", "--release", "--offline"],
+            [os.path.join(ROOT, "tools", "slot.py"), "cargo", "3", "--", "cargo", "build", "--release", "--offline"],
             cwd=HARNESS, env=env_offline(), stdout=subprocess.PIPE, stderr=subprocess.STDOUT, text=True,
         )
     return p.returncode == 0, time.time() - t0, p.stdout[-4000:]
